@@ -556,7 +556,17 @@ sp_zgemv(char *trans, doublecomplex alpha, SuperMatrix *A, doublecomplex *x,
 		jx += incx;
 	    }
 	} else {
-	    SUPERLU_ABORT("Not implemented.");
+	    for (j = 0; j < A->ncol; ++j) {
+		if ( !z_eq(&x[jx], &comp_zero) ) {
+		    zz_mult(&temp, &alpha, &x[jx]);
+		    for (i = Astore->colptr[j]; i < Astore->colptr[j+1]; ++i) {
+			irow = Astore->rowind[i];
+			zz_mult(&temp1, &temp,  &Aval[i]);
+			z_add(&y[ky + irow * incy], &y[ky + irow * incy], &temp1);
+		    }
+		}
+		jx += incx;
+	    }
 	}
     } else {
 	/* Form  y := alpha*A'*x + y. */
@@ -578,7 +588,21 @@ sp_zgemv(char *trans, doublecomplex alpha, SuperMatrix *A, doublecomplex *x,
 		jy += incy;
 	    }
 	} else {
-	    SUPERLU_ABORT("Not implemented.");
+	    for (j = 0; j < A->ncol; ++j) {
+		temp = comp_zero;
+		for (i = Astore->colptr[j]; i < Astore->colptr[j+1]; ++i) {
+		    irow = Astore->rowind[i];
+		    if ( conjtran ) { /* y := alpha*A**H*x + y */
+			zz_conj(&temp1, &Aval[i]);
+			zz_mult(&temp1, &temp1, &x[kx + irow * incx]);
+		    } else
+		    zz_mult(&temp1, &Aval[i], &x[kx + irow * incx]);
+		    z_add(&temp, &temp, &temp1);
+		}
+		zz_mult(&temp1, &alpha, &temp);
+		z_add(&y[jy], &y[jy], &temp1);
+		jy += incy;
+	    }
 	}
     }
     return 0;    
